@@ -634,7 +634,38 @@ def check_helpers_released(ck: Checker, rid: str):
         ck.ob(rid, p.cons, (p.cons.node.lineno, f'{p.label} worker released'), ok, f'every exit after `_start()` runs `{p.fin.name}()`, which joins `{p.worker}`' if ok else f'an exit of the generator does not run the finaliser that joins `{p.worker}`', path=fmt_path(ccfg, pth) if pth else '')
 
 
+def check_async_driver(ck: Checker, rid: str):
+    """A worker thread that iterates an async source runs it with `asyncio.run` (which, after the coroutine is done or
+    was left early, finalises the async generators still suspended in the upstream chain -- `shutdown_asyncgens` -- so
+    that *their* `finally` blocks stop their worker threads and pools), or does the same explicitly."""
+    n_ob = 0
+    for p in pairs(ck):
+        if p.fin is None or not p.prod.is_async:
+            continue
+        driver = p.prod.parent  # the thread target
+        ck.need(driver is not None, f'{p.prod.key}: async producer is not nested in its thread target')
+        calls = [n for n in walk_shallow_func(driver.node) if isinstance(n, ast.Call)]
+        runs = [c for c in calls if any(isinstance(a, ast.Call) and is_name(a.func, p.prod.name) for a in c.args)]
+        ck.need(runs, f'{driver.key}: the call that runs `{p.prod.name}()` was not found')
+        c = runs[0]
+        d = dotted(c.func) or ''
+        n_ob += 1
+        if d in ('asyncio.run', 'run'):
+            ck.ob(rid, driver, c, True, f'`{p.prod.name}()` is run by asyncio.run: suspended upstream async generators are finalised when the worker ends')
+            continue
+        fin = [k for k in calls if method_of(k)[1] == 'run_until_complete' and k.args and isinstance(k.args[0], ast.Call) and method_of(k.args[0])[1] == 'shutdown_asyncgens']
+        ok = bool(fin)
+        if ok:
+            dcfg = build_cfg(driver, ck.repo, lambda node: {'Exception'} if header_expr(node) is not None and any(x is c for x in calls_in(header_expr(node))) else set())
+            fin_nodes = {n.id for n in dcfg.nodes if header_expr(n) is not None and any(x in fin for x in calls_in(header_expr(n)))}
+            run_nodes = [n for n in dcfg.nodes if header_expr(n) is not None and any(x is c for x in calls_in(header_expr(n)))]
+            ok = bool(run_nodes) and all(path_avoiding(dcfg, list(dcfg.succ[r.id]), {dcfg.exit_return, dcfg.exit_raise}, avoid=fin_nodes) is None for r in run_nodes)
+        ck.ob(rid, driver, c, ok, f'`{p.prod.name}()` is run by `{d}` and the loop finalises its async generators (`shutdown_asyncgens`) on every exit' if ok else f'`{p.prod.name}()` is run by `{d}(…)` without `shutdown_asyncgens` on every exit: when the consumer stops early the upstream async generators stay suspended for ever — their clean-up never runs, their worker threads and pools leak')
+    ck.need(n_ob >= 2, f'only {n_ob} async producers found')
+
+
 def run(ck: Checker):
+    ck.rule('C05-6', 'async producers are driven by asyncio.run (or an explicit shutdown_asyncgens on every exit): async generators of the upstream chain left suspended by an early stop are finalised (PAIR)', minimum=2)
     ck.rule('C05-1', 'terminal item on every producer exit: exhaustion, stop flag, Exception and StopRequested from source / function / preprocessor (EXITS)', minimum=5)
     ck.rule('C05-2', 'terminal vocabulary agreement between producer and consumer (AGREE)', minimum=5)
     ck.rule('C05-3', 'stop flag set on every abnormal consumer exit (GeneratorExit thrown in at each yield, failures); producer polls that flag every iteration before processing (EXITS)', minimum=10)
@@ -646,3 +677,4 @@ def run(ck: Checker):
         check_stop_flag(ck, 'C05-3', p)
         check_join_safety(ck, 'C05-4', p)
     check_helpers_released(ck, 'C05-5')
+    check_async_driver(ck, 'C05-6')
